@@ -73,6 +73,7 @@ struct Rec {
 	/// errors the watcher reports through its callback from *inside* the next watch() calls, on the caller's own task
 	/// (what notify's poll watcher does for an unreadable root)
 	sync_cb_errors: usize,
+	fired_in_create: usize,
 }
 
 struct Inst {
@@ -375,6 +376,7 @@ struct Outcome {
 	inconclusive: Option<String>,
 	log: Vec<String>,
 	watch_calls: usize,
+	fired_in_create: usize,
 	instances: usize,
 	errors_seen: usize,
 	hash: u64,
@@ -429,13 +431,22 @@ fn run_scn(scn: &Scn, base: &Path) -> Outcome {
 	{
 		let rec = rec.clone();
 		watchexec::sources::fs::verif::set_factory(Some(Arc::new(move |kind, handler| {
-			let id = {
+			let (id, cb) = {
 				let mut r = rec.lock().unwrap();
 				r.instances.push(Inst { kind: kind_name(kind), registered: BTreeMap::new(), dropped: false });
 				let id = r.instances.len() - 1;
 				r.log.push((mono_ns(), WEv::Create { inst: id, kind: kind_name(kind) }));
-				id
+				// creating the watcher is a call of the worker's apply cycle like watch / unwatch: an armed change may
+				// be issued from inside it (after the worker has read the configuration, before it registers anything)
+				r.calls_since_arm += 1;
+				let c = r.calls_since_arm;
+				let pos = r.armed.iter().position(|(n, _)| *n <= c);
+				(id, pos.map(|p| r.armed.remove(p).1))
 			};
+			if let Some(cb) = cb {
+				rec.lock().unwrap().fired_in_create += 1;
+				cb();
+			}
 			let handler: SharedHandler = Arc::new(Mutex::new(handler));
 			rec.lock().unwrap().handlers.push(handler.clone());
 			Ok(Box::new(FakeWatcher { id, rec: rec.clone(), _handler: handler }) as Box<dyn notify::Watcher + Send>)
@@ -803,6 +814,7 @@ fn run_scn(scn: &Scn, base: &Path) -> Outcome {
 		inconclusive: out.1,
 		log: r.log.iter().map(|(_, e)| format!("{e:?}").replace(&base.display().to_string(), "<base>")).collect(),
 		watch_calls: r.log.iter().filter(|(_, e)| matches!(e, WEv::Watch { .. } | WEv::Unwatch { .. })).count(),
+		fired_in_create: r.fired_in_create,
 		instances: r.instances.len(),
 		errors_seen: out.2,
 		settled: out.3,
@@ -851,6 +863,7 @@ pub fn run_one(prop: &str, args: &ShardArgs, rng: &mut Rng, rep: &mut Report, k:
 		rep.nontrivial(out.hash);
 	}
 	rep.count("watch_unwatch_calls", out.watch_calls as u64);
+	rep.count("changes_issued_from_inside_watcher_creation", out.fired_in_create as u64);
 	rep.count("watcher_instances", out.instances as u64);
 	rep.count("watcher_errors_at_handler", out.errors_seen as u64);
 	rep.count("settled_histories_judged_for_once_per_attempt", out.settled as u64);
